@@ -56,6 +56,9 @@ SCHEMA = {
     "protocols.isis.lsp-mtu": ("U", "2"),
     "protocols.mpls.enabled": ("B", "2"),
     "protocols.mpls.platform-labels": ("U", "2"),
+    "interfaces.<*>.address.ipv4": ("L", "1,2,3"),               # []string leaf behind a pointer
+    "vrfs.<*>.import-route-targets": ("L", "1,2"),
+    "protocols.bgp.neighbors.<*:ip>.description": ("S", "2,3,4"),  # typed wildcard: map key = decoded IP
     "aaa.nas_identifier": ("S", "-"),
     "aaa.nas_ip": ("S", "-"),
     "_internal.punt.<*>.arp": ("N", "-"),
@@ -82,6 +85,8 @@ VALUES = {
     "S": [hx("ab"), hx("uplink"), hx(""), hx("x y"), hx("10.0.0.1"), "i42", "i-7", "i0", "u9", "b1", "b0"],
     "B": ["b1", "b0", "b1", hx("true"), hx("T"), hx("0"), hx("False"), hx("yes"), hx(""), "i1"],
     "N": ["b1", "i1", hx("x")],
+    "L": ["l" + "10.0.0.1/24".encode().hex(), "l" + "10.0.0.1/24".encode().hex() + ":" + "192.0.2.1/32".encode().hex(),
+          "l" + "65000:1".encode().hex(), hx("10.0.0.1/24"), "i5", "b1"],
     "A": [hx("edited"), hx("x"), hx("orig"), "b1"],
 }
 _uniq = [1000]
@@ -98,8 +103,12 @@ FAULTS = ["0:R", "0:R", "0:rq1", "2:q1", "3:q2", "0:tq1", "0:sq2", "0:Rq2", "0:R
                          "0:rs", "3:s", "0:tv"]
 
 
+IPKEYS = ["00000000000000000000ffff0a000001", "00000000000000000000ffffc0000207",
+          "20010db8000000000000000000000001"]       # paths.EncodeIP of 10.0.0.1, 192.0.2.7, 2001:db8::1
+
+
 def concrete(rng, pat):
-    return ".".join(rng.choice(WILDS) if s == "<*>" else s for s in pat.split("."))
+    return ".".join(rng.choice(WILDS) if s == "<*>" else rng.choice(IPKEYS) if s == "<*:ip>" else s for s in pat.split("."))
 
 
 def mk_reg(rng, pats, deps, frr):
@@ -129,6 +138,8 @@ def rand_registry(rng):
             d = rng.sample(range(n - 1), 2)
         elif style == "fanin" and i > 0 and rng.random() < 0.4:
             d = [rng.randrange(i)]
+        if "<*:" in pats[i]:
+            d = []          # typed wildcards re-encode values when a dependency path is built; not modelled
         deps.append(d)
     frr = [(p.startswith("protocols.") if rng.random() < 0.8 else rng.random() < 0.5) for p in pats]
     return pats, deps, frr
@@ -153,13 +164,17 @@ def good_value(rng, pat):
     if pat in PLUGIN:
         return plugin_value(rng, pat)
     return {"I": "i%d" % rng.choice([1500, 9000, 1400, 68]), "U": "u%d" % rng.choice([1, 64, 65000]),
-            "S": hx(rng.choice(["a", "core", "10.0.0.1"])), "B": "b1", "N": "b1"}[SCHEMA[pat][0]]
+            "S": hx(rng.choice(["a", "core", "10.0.0.1"])), "B": "b1", "N": "b1",
+            "L": "l" + rng.choice(["10.0.0.1/24", "192.0.2.7/32"]).encode().hex()}[SCHEMA[pat][0]]
 
 
 def fill(pat, vals):
     out, k = [], 0
     for s in pat.split("."):
-        if s == "<*>":
+        if s == "<*:ip>":
+            out.append(IPKEYS[(len(vals[0]) + k) % len(IPKEYS)])
+            k += 1
+        elif s == "<*>":
             out.append(vals[k % len(vals)])
             k += 1
         else:
@@ -328,7 +343,7 @@ def conc_case(rng):
 
 
 def gen_cases(rng, tier, budget):
-    n = budget or (2000 if tier == "quick" else 24000)
+    n = budget or (1700 if tier == "quick" else 22000)
     cases = boundary_cases()
     for _ in range(max(20, n // 5)):
         cases.append(conc_case(rng))
@@ -396,7 +411,7 @@ def init_entries(recipe):
     if recipe[0] == "guard":
         g = "subscriber-groups.groups.g1"
         return ["subscriber-groups/", "subscriber-groups.groups/", g + "/", g + ".pppoe/", g + ".pppoe.mru=i%d" % recipe[2],
-                g + ".vlans.0/", g + ".vlans.0.access-types.0=" + hx("pppoe"), g + ".vlans.0.cvlan=" + hx("any"),
+                g + ".vlans.0/", g + ".vlans.0.access-types=l" + "pppoe".encode().hex(), g + ".vlans.0.cvlan=" + hx("any"),
                 g + ".vlans.0.parent-interface=" + hx(recipe[1]), g + ".vlans.0.svlan=" + hx("100")]
     if recipe[0] == "deep":
         i, sg = "interfaces.eth1", "subscriber-groups.groups"
